@@ -68,7 +68,9 @@ def run(rep, drv):
 					Qa = Q * g
 					if fam == 'addyield' and Qa + ym <= 0:
 						continue
-					_, ca = f(Qa)
+					Qret, ca = f(Qa)
+					if not close(Qret, Qa):
+						errs.append('evaluating Q=%r returned the decision %r' % (Qa, Qret)); break
 					ma = float(unfr(drv.call('eoqcost', family=fam, args=frs(margs(Qa)))))
 					rep.tol_cmp += 1
 					if not close(ca, ma):
@@ -92,10 +94,15 @@ def run(rep, drv):
 			same = True
 			for g in grid:
 				for xx in (0, 0.1, x, 0.5, 0.9, 1):
-					_, _, ca = call(eoq.economic_order_quantity_with_backorders, K, h, p, lam, Q * g, xx)
+					Qr, xr, ca = call(eoq.economic_order_quantity_with_backorders, K, h, p, lam, Q * g, xx)
 					ma = float(unfr(drv.call('eoqcost', family='eoqb', args=frs([K, h, p, lam, Q * g, xx]))))
 					rep.tol_cmp += 1
 					same = same and close(ca, ma)
+					# evaluation mode prices the decision it is given: the decision comes back unchanged and the cost is its cost
+					# h Q (1-x)^2/2 + p Q x^2/2 + K lambda / Q (x = 0: the plain EOQ cost)
+					ref = h * Q * g * (1 - xx) ** 2 / 2 + p * Q * g * xx ** 2 / 2 + K * lam / (Q * g)
+					if not (close(Qr, Q * g) and close(xr, xx)) or not close(ca, ref, 1e-9):
+						errs.append('evaluating (Q,x)=(%r,%r) returned the decision (%r,%r) and cost %r; that decision costs %r' % (Q * g, xx, Qr, xr, ca, ref))
 					if ca < c - 1e-9 * max(1, c):
 						errs.append('(Q,x)=(%r,%r) costs %r < %r' % (Q * g, xx, ca, c))
 			if errs or not same:
@@ -126,6 +133,8 @@ def run(rep, drv):
 	for k in range(N):
 		h = rng.choice([0.18, 1, 3]); p = rng.choice([0.7, 4, 20]); mean = rng.choice([8, 50, 120]); sd = rng.choice([2, 8, 20]); L = rng.choice([0, 0, 1, 3])
 		which = rng.choice(['normal', 'poisson', 'discrete', 'explicit', 'myopic', 'continuous', 'yield-additive', 'disruptions', 'eoq-disruptions'])
+		if k < 3:
+			which = 'eoq-disruptions'          # corpus: the first cases are EOQ-with-disruptions in the rare-long-disruption regime
 		case = {'variant': which, 'h': h, 'p': p, 'mean': mean, 'sd': sd, 'L': L}
 		rep.case('newsvendor', case); rep.count('variant:' + which)
 		try:
@@ -286,12 +295,17 @@ def run(rep, drv):
 					_, ca = call(su.newsvendor_with_disruptions, h, p, d, a, b, d * mult)
 					if ca < c - 1e-9 * max(1, c): errs.append('S=%r better' % (d * mult))
 			else:
-				K = rng.choice([8, 50]); lam = rng.choice([100, 1300]); a, b = rng.choice([0.5, 1.5]), rng.choice([6, 14])
+				K = rng.choice([8, 50, 1]); lam = rng.choice([100, 1300]); a, b = rng.choice([0.5, 1.5]), rng.choice([6, 14])
+				if k < 3 or rng.random() < .4:
+					a, b = rng.choice([0.001, 0.05]), rng.choice([0.01, 0.2])          # rare, long disruptions: the closed-form approximation is far from the exact optimum
+					h = rng.choice([0.01, 0.225])
+					rep.count('eoq-disruptions:rare-long')
+				case.update({'K': K, 'lambda': lam, 'disruption_rate': a, 'recovery_rate': b, 'h': h})
 				for approx in (False, True):
 					Q, c = call(su.eoq_with_disruptions, K, h, p, lam, a, b, approximate=approx)
 					c2 = call(su.eoq_with_disruptions_cost, Q, K, h, p, lam, a, b, approximate=approx)
 					if not close(c, c2, 1e-7): errs.append('approximate=%s: reported %r != evaluated %r' % (approx, c, c2))
-					for g in (0.3, 0.9, 0.999, 1.001, 1.1, 3):
+					for g in (0.3, 0.9, 0.999, 1.001, 1.1, 3) + ((0.003, 0.01, 0.05, 0.1, 10, 30, 100) if not approx else ()):
 						ca = call(su.eoq_with_disruptions_cost, Q * g, K, h, p, lam, a, b, approximate=approx)
 						if ca < c - 1e-7 * max(1, c): errs.append('approximate=%s: Q=%r better' % (approx, Q * g))
 			if errs:
